@@ -7,13 +7,13 @@ def siteCenterAddLink : List SiteOp := [.link .self .parent, .setattr .root .sel
 /-- `JplCenter.add_link` -/
 def siteJplCenterAddLink : List SiteOp := [.link .self .parent, .setattr .root .self .parent .self]
 /-- `TopocentricOrientation.__init__` -/
-def siteTopocentricOrientationCtor : List SiteOp := [.setattr (.inst .self) .self .parent .self, .link .parent .self]
+def siteTopocentricOrientationCtor : List SiteOp := [.setattr .root .self .parent .self, .link .parent .self]
 /-- `LocalOrbitalOrientation.__init__` -/
 def siteLocalOrbitalOrientationCtor : List SiteOp := [.setattr .root .self .parent .self, .link .parent .self]
 /-- `LagrangeOrient.__init__` -/
 def siteLagrangeOrientCtor : List SiteOp := [.setattr .root .self .parent .self, .link .parent .self]
 /-- `create_station[orient]` -/
-def siteCreateStationOrient : List SiteOp := [.setattr (.inst .self) .self .parent .self, .link .parent .self, .setattr .root .self .parent .self, .link .self .parent]
+def siteCreateStationOrient : List SiteOp := [.setattr .root .self .parent .self, .link .parent .self, .setattr .root .self .parent .self, .link .self .parent]
 /-- `create_station[center]` -/
 def siteCreateStationCenter : List SiteOp := [.link .self .parent, .setattr .root .self .parent .self]
 /-- `orbit2frame[orient]` -/
@@ -31,8 +31,8 @@ def siteJplCreateFramesCenterBodies : List SiteOp := [.link .self .parent, .seta
 /-- `jpl.create_frames[center#earth]` -/
 def siteJplCreateFramesCenterEarth : List SiteOp := [.link .self .parent, .setattr .root .self .parent .self]
 def regSites : List (String × List SiteOp) := [("Center.add_link", siteCenterAddLink), ("JplCenter.add_link", siteJplCenterAddLink), ("TopocentricOrientation.__init__", siteTopocentricOrientationCtor), ("LocalOrbitalOrientation.__init__", siteLocalOrbitalOrientationCtor), ("LagrangeOrient.__init__", siteLagrangeOrientCtor), ("create_station[orient]", siteCreateStationOrient), ("create_station[center]", siteCreateStationCenter), ("orbit2frame[orient]", siteOrbit2frameOrient), ("orbit2frame[center]", siteOrbit2frameCenter), ("lagrange[orient]", siteLagrangeOrient), ("lagrange[center]", siteLagrangeCenter), ("solarsystem.get_frame[center]", siteSolarsystemGetFrameCenter), ("jpl.create_frames[center#bodies]", siteJplCreateFramesCenterBodies), ("jpl.create_frames[center#earth]", siteJplCreateFramesCenterEarth)]
-/-- every site except the bare `TopocentricOrientation.__init__` (known finding C20-topocentric-ctor-instance-only) -/
-def publicSites : List (String × List SiteOp) := [("Center.add_link", siteCenterAddLink), ("JplCenter.add_link", siteJplCenterAddLink), ("LocalOrbitalOrientation.__init__", siteLocalOrbitalOrientationCtor), ("LagrangeOrient.__init__", siteLagrangeOrientCtor), ("create_station[orient]", siteCreateStationOrient), ("create_station[center]", siteCreateStationCenter), ("orbit2frame[orient]", siteOrbit2frameOrient), ("orbit2frame[center]", siteOrbit2frameCenter), ("lagrange[orient]", siteLagrangeOrient), ("lagrange[center]", siteLagrangeCenter), ("solarsystem.get_frame[center]", siteSolarsystemGetFrameCenter), ("jpl.create_frames[center#bodies]", siteJplCreateFramesCenterBodies), ("jpl.create_frames[center#earth]", siteJplCreateFramesCenterEarth)]
+/-- every site that `sites_register_root` requires to register on the base class: all of them (including the bare `TopocentricOrientation.__init__`) -/
+def publicSites : List (String × List SiteOp) := [("Center.add_link", siteCenterAddLink), ("JplCenter.add_link", siteJplCenterAddLink), ("TopocentricOrientation.__init__", siteTopocentricOrientationCtor), ("LocalOrbitalOrientation.__init__", siteLocalOrbitalOrientationCtor), ("LagrangeOrient.__init__", siteLagrangeOrientCtor), ("create_station[orient]", siteCreateStationOrient), ("create_station[center]", siteCreateStationCenter), ("orbit2frame[orient]", siteOrbit2frameOrient), ("orbit2frame[center]", siteOrbit2frameCenter), ("lagrange[orient]", siteLagrangeOrient), ("lagrange[center]", siteLagrangeCenter), ("solarsystem.get_frame[center]", siteSolarsystemGetFrameCenter), ("jpl.create_frames[center#bodies]", siteJplCreateFramesCenterBodies), ("jpl.create_frames[center#earth]", siteJplCreateFramesCenterEarth)]
 /-- `def <a>_to_<b>` of the class body of `Orientation`, as indices into `orientNames` -/
 def orientMethods : List (Nat × Nat) := [(6, 2), (1, 2), (2, 3), (3, 4), (0, 1), (0, 7), (7, 8), (8, 9), (5, 4), (9, 4)]
 end BeyondVerif.Generated
